@@ -89,6 +89,24 @@ func (x *Exec) logCall(st *State, key string, args []Val, ts []types.Type) {
 	st.setComp("N!"+key, Add(n, TInt(1)))
 }
 
+// logRet records the (scalar) result of the latest logged call of key.
+func (x *Exec) logRet(st *State, key string, res Val, resT types.Type) {
+	if !x.eng.logKeys[key] || res == nil || resT == nil {
+		return
+	}
+	tvs := resultTVs(res, resT)
+	n := Sub(st.comp("N!"+key, SI), TInt(1))
+	for j, tv := range tvs {
+		if tv.T == nil || sortOf(tv.T) == "" {
+			continue
+		}
+		term := st.scalar(tv.V, tv.T)
+		name := fmt.Sprintf("R!%s!%d", key, j)
+		arr := st.comp(name, ArrSort(SI, term.Sort))
+		st.setComp(name, Sto(arr, n, term))
+	}
+}
+
 // call dispatches a call instruction. fnVal/args are given for deferred calls.
 func (x *Exec) call(st *State, site ssa.Value, cc *ssa.CallCommon, fnVal Val, args []Val, k func(st *State, res Val)) {
 	fr := st.top()
@@ -102,6 +120,16 @@ func (x *Exec) call(st *State, site ssa.Value, cc *ssa.CallCommon, fnVal Val, ar
 		resT = site.Type()
 	} else {
 		resT = cc.Signature().Results()
+	}
+	{
+		key := x.calleeKey(st, fr, cc)
+		if x.eng.logKeys[key] {
+			k0 := k
+			k = func(st2 *State, res Val) {
+				x.logRet(st2, key, res, resT)
+				k0(st2, res)
+			}
+		}
 	}
 	if cc.IsInvoke() {
 		recv := fnVal
@@ -247,9 +275,14 @@ func (x *Exec) applyContract(st *State, c *Contract, fn *ssa.Function, sig *type
 		props = cur.Props
 	}
 	for _, cl := range c.ByKind("requires") {
-		g := x.safeBool(e, cl)
+		g := x.safeGoal(e, cl)
 		x.oblige(st, "call."+shortKey(key)+"."+clauseName(cl), props, g, "precondition of "+key+": "+cl.Src)
-		st.assume(g)
+		st.assume(x.safeAssume(e, cl))
+	}
+	// domain clauses: the contract speaks only about calls inside its domain
+	dom := TTrue
+	for _, cl := range c.ByKind("domain") {
+		dom = And(dom, x.safeBool(e, cl))
 	}
 	x.logCall(st, key, args, ats)
 	// havoc
@@ -261,13 +294,13 @@ func (x *Exec) applyContract(st *State, c *Contract, fn *ssa.Function, sig *type
 	for _, cl := range c.ByKind("panics") {
 		var cond Term
 		e.withHeap(pre, func() TV { cond = x.safeBool(e, cl); return TV{} })
-		st.assume(Not(cond))
+		st.assume(Imp(dom, Not(cond)))
 	}
 	for _, cl := range c.ByKind("ensures") {
-		st.assume(x.safeBool(e, cl))
+		st.assume(Imp(dom, x.safeAssume(e, cl)))
 	}
 	for _, cl := range c.ByKind("assume") {
-		st.assume(x.safeBool(e, cl))
+		st.assume(x.safeAssume(e, cl))
 	}
 	if c.Trusted {
 		x.note(&x.trusted, "assumed contract: "+c.Kind+" "+c.Key)
@@ -556,7 +589,7 @@ func (x *Exec) frameCheck(st *State, fr *Frame, base map[string]Term, baseWM Ter
 		if strings.HasPrefix(comp, "C!") || strings.HasPrefix(comp, "B!") {
 			// cells and closure objects: only fresh ones may be written unless declared
 		}
-		if strings.HasPrefix(comp, "A!") {
+		if strings.HasPrefix(comp, "A!") || strings.HasPrefix(comp, "R!") {
 			continue // argument logs are covered by their N! counter
 		}
 		ls := byComp[comp]
